@@ -35,7 +35,8 @@ func verifC17Check(prefix string, line string, user, addr, port string) {
 
 func VerifC17InvalidUser() {
 	U, A := verifrt.Param("U", 24), verifrt.Param("A", 12)
-	t := verifrt.Template("Invalid user ", verifrt.F("user", 1, U, verifClassUserAny),
+	umin := verifrt.Param("UMIN", 1)
+	t := verifrt.Template("Invalid user ", verifrt.F("user", umin, U, verifClassUserAny),
 		" from ", verifrt.F("addr", 1, A, verifClassAddr), " port ", verifrt.F("port", 1, 5, verifClassDigit))
 	verifC17Check("c17.invalid", t.Line, t.Fields[0], t.Fields[1], t.Fields[2])
 }
@@ -44,7 +45,7 @@ func VerifC17FailedPassword() {
 	U, A := verifrt.Param("U", 24), verifrt.Param("A", 12)
 	inv := verifrt.Str("invalidprefix", 0, 13, "")
 	verifrt.Assume(verifrt.Or(inv == "", inv == "invalid user "))
-	t := verifrt.Template("Failed password for ", verifrt.F("user", 0, U, verifClassUserAny),
+	t := verifrt.Template("Failed password for ", verifrt.F("user", verifrt.Param("UMIN", 0), U, verifClassUserAny),
 		" from ", verifrt.F("addr", 1, A, verifClassAddr), " port ", verifrt.F("port", 1, 5, verifClassDigit), " ssh2")
 	_ = inv
 	verifC17Check("c17.failedpw", t.Line, t.Fields[0], t.Fields[1], t.Fields[2])
@@ -52,7 +53,8 @@ func VerifC17FailedPassword() {
 
 func VerifC17MaxAuth() {
 	U, A := verifrt.Param("U", 24), verifrt.Param("A", 12)
-	t := verifrt.Template("maximum authentication attempts exceeded for ", verifrt.F("user", 0, U, verifClassUserAny),
+	// UMIN..U: the text sshd prints there is "invalid user " (13 bytes) plus a name of up to 100
+	t := verifrt.Template("maximum authentication attempts exceeded for ", verifrt.F("user", verifrt.Param("UMIN", 0), U, verifClassUserAny),
 		" from ", verifrt.F("addr", 1, A, verifClassAddr), " port ", verifrt.F("port", 1, 5, verifClassDigit), " ssh2")
 	verifC17Check("c17.maxauth", t.Line, t.Fields[0], t.Fields[1], t.Fields[2])
 }
